@@ -658,12 +658,14 @@ def main(argv):
         else:
             r = check_affinity(rec["scenario"], rec["seed"])
         same = [f for f in r["findings"] if f["rule"] == rec["rule"]]
-        print("replay %s: %s" % (argv[1], "REPRODUCED rule=%s" % rec["rule"] if same else "not reproduced"))
+        print("replay %s: %s" % (argv[1], "REPRODUCED rule=%s%s" % (rec["rule"], common.digest_note(rec, same)) if same else "not reproduced"))
         return 1 if same else 0
     tier = common.tier()
     na, nm = (1200, 800) if tier == "quick" else (60000, 40000)
     items = [("aff", i) for i in range(na)] + [("map", i) for i in range(nm)]
     rep = common.Report(PROP)
+    from checks import minimise as _MIN
+    rep.minimiser = lambda f: _MIN.scenario(f, lambda scn, seed: check_affinity(scn, seed)) if f.get('kind') == 'affinity' else f
     for r in common.run_batch("checks.c19", "run_one", items, {"tier": tier}):
         rep.absorb(r)
     return rep.finish(
